@@ -1002,21 +1002,29 @@ where
             lc
         })
         .collect();
-    sorted_lcs.sort_by(|a, b| {
-        if let Some(b_resume_lc) = &b.resume_lc {
-            if b_resume_lc.id == a.id {
-                // b is a resume of a so a must be earlier
-                return std::cmp::Ordering::Less;
+    sorted_lcs.sort_by_key(|lc| lc.start_time);
+    // a resumed lifecycle shall never be listed before the lifecycle it resumes:
+    // (can't be part of the sort comparison as e.g. for a: start_time 3, b: start_time 1 and resume of a, c: start_time 2
+    // a<b, b<c and c<a would be no valid order)
+    let mut nr_moves = 0; // safeguard only. resume infos are never cyclic
+    let mut i = 0;
+    while i < sorted_lcs.len() {
+        let pos_resumed_lc = sorted_lcs[i].resume_lc.as_ref().and_then(|resume_lc| {
+            sorted_lcs[i + 1..]
+                .iter()
+                .position(|lc| lc.id == resume_lc.id)
+        });
+        match pos_resumed_lc {
+            Some(pos) if nr_moves < sorted_lcs.len() * sorted_lcs.len() => {
+                // move the lifecycle directly behind the one it resumes and check the one now at i
+                for j in i..i + 1 + pos {
+                    sorted_lcs.swap(j, j + 1);
+                }
+                nr_moves += 1;
             }
+            _ => i += 1,
         }
-        if let Some(a_resume_lc) = &a.resume_lc {
-            if a_resume_lc.id == b.id {
-                // a is a resume of b so b must be earlier
-                return std::cmp::Ordering::Greater;
-            }
-        }
-        a.start_time.cmp(&b.start_time)
-    });
+    }
     sorted_lcs
 }
 
